@@ -13,27 +13,33 @@ EXTRACT_TARGETS = ['Extract/Ex_addgrad.vo']
 RUNNER = 'addgrad'
 LEVEL = 'proof'
 MANIFEST = {
-    'text': "Theorems (Coq, any number of inputs, over the piecewise-linear library Base/PWL.v): the equal-timing "
+    'text': "Theorems (Coq, any number of inputs, over the piecewise-linear library Base/PWL.v): (1) the equal-timing "
             "trapezoid path returns the trapezoid whose rendering is the sum of the input renderings plus the "
-            "code's eps*unit-trapezoid; the extended-trapezoid path (union of corner times, interpolation of every "
-            "input on the common grid, summation) renders at EVERY time to the sum of the input renderings when no "
-            "input starts/ends away from zero in the interior of the common support; the raster path returns, at "
-            "every raster centre, the sum of the input samples; duration = max, first/last, single input = "
-            "identity, and the limit tests raise exactly beyond max_grad+eps / max_slew(1+eps) of the limits the "
-            "code forwards. The extracted model is run against add_gradients on ~1500 (quick) generated input "
-            "lists (1-4 gradients, all kind mixes); the pointwise-sum predicate is evaluated with exact Fractions "
-            "on the implementation's own inputs and output at all corner times, +-raster/8 and midpoints.",
+            "code's eps*unit-trapezoid; (2) the extended-trapezoid path (union of corner times, interpolation of "
+            "every input on the common grid, summation) renders at EVERY time to the sum of the input renderings "
+            "for every input list one block can hold (C05 rules: timings on the raster, non-zero start only with "
+            "zero delay, non-zero end only at the block end; proved to imply the StartsOk/EndsOk hypotheses); (3) "
+            "the raster path equals, at EVERY raster centre, the sum of the input renderings (points_to_waveform "
+            "samples identified with eval at the centres); duration = longest input duration on all three paths, "
+            "first/last sums, single input = identity; on each path add_gradients raises exactly when the sum "
+            "exceeds max_grad+eps / max_slew(1+eps) of the limits the code forwards, and a returned "
+            "extended-trapezoid sum is within them at every time. The extracted model is run against add_gradients "
+            "on ~1500 (quick) generated input lists (1-4 gradients, all kind mixes, incl. pieces of split gradients "
+            "meeting at a non-zero value of either sign); the pointwise-sum predicate is evaluated with exact "
+            "Fractions on the implementation's own inputs and output at all corner times, +-raster/8 and midpoints.",
     'note': 'Trusted: Coq kernel; translator patterns for add_gradients.py and the makers; extraction '
             '(ExtrOcamlBasic) + driver; binary64/NumPy arithmetic outside the model (sampled by correspondence, '
-            'guard band around the limit thresholds); input aliasing checked by snapshot only.',
+            'guard band around the limit thresholds); input aliasing checked by snapshot only; pieces that meet at '
+            'a non-zero junction (the tt[0]+=eps convention) are covered by oracle + correspondence, not by theorem.',
     'technique': 'Rocq/Coq proof over a Gallina model (induction over the input list / corner lists) + '
                  'extraction-based correspondence',
 }
 BUDGET = {'quick': 80, 'thorough': 1500}
 MISMATCH_BUDGET = 0.0
-RULE = ('input lists of 1-4 gradients on channel x drawn from 8 streams (equal-timing trapezoids, unequal '
+RULE = ('input lists of 1-4 gradients on channel x drawn from 9 streams (equal-timing trapezoids, unequal '
         'trapezoids, trapezoid+extended, extended only, mixes with arbitrary gradients, cancelling pairs, '
-        'limit-override cases, near-limit sums); times are integer multiples of the raster of a random system, '
+        'limit-override cases, near-limit sums, junction = pieces made by split_gradient_at / split_gradient / by hand '
+        'from trapezoids and extended trapezoids of both signs, meeting at a shared corner at a non-zero value); times are integer multiples of the raster of a random system, '
         'amplitudes integers; a gradient starts/ends away from zero only at time 0 / at the common end (the '
         'block rule). Oracle per case: exact rendering of inputs and result compared at every corner time, '
         '+-raster/8 and midpoints (raster centres on the sampled path), first/last, duration=max, inputs '
@@ -121,6 +127,96 @@ def negate(g):
     return h
 
 
+# ---- pieces that meet at a shared corner at a non-zero value of either sign -------------------------------------
+def abs_corners(g):
+    """corner list (absolute raster index, value) of a trap / ext dict"""
+    if g['k'] == 'trap':
+        d = g['delay']
+        c = [(d, 0), (d + g['rise'], g['amp'])]
+        if g['flat'] > 0:
+            c.append((d + g['rise'] + g['flat'], g['amp']))
+        c.append((d + g['rise'] + g['flat'] + g['fall'], 0))
+        return c
+    return [(g['delay'] + t, v) for t, v in zip(g['tt'], g['wf'])]
+
+
+def hand_split(g, k):
+    """cut a trap / ext dict at the absolute raster index k (strictly inside): two ext dicts that meet at k"""
+    c = abs_corners(g)
+    vk = None
+    for (a, v), (b, w) in zip(c, c[1:]):
+        if a <= k <= b:
+            vk = Fraction(v) + (Fraction(w) - Fraction(v)) * Fraction(k - a, b - a)
+            break
+    vk = int(vk) if vk.denominator == 1 else float(vk)
+    left = [(t, v) for t, v in c if t < k] + [(k, vk)]
+    right = [(k, vk)] + [(t, v) for t, v in c if t > k]
+    mk = lambda cs: {'k': 'ext', 'delay': cs[0][0], 'tt': [t - cs[0][0] for t, _ in cs], 'wf': [v for _, v in cs]}
+    return mk(left), mk(right)
+
+
+def obj_to_dict(o, rq):
+    """an extended-trapezoid event of the implementation as a case dict (times in raster units)"""
+    rr = lambda x: int(round(F(x) / rq))
+    wf = [float(v) for v in o.waveform]
+    wf = [int(v) if v == int(v) else v for v in wf]
+    return {'k': 'ext', 'delay': rr(o.delay), 'tt': [rr(t) for t in o.tt], 'wf': wf}
+
+
+def impl_pieces(g, S, how, k):
+    """the pieces split_gradient_at / split_gradient of the implementation make from a trap / ext dict"""
+    import pypulseq as pp
+    case = {'sys': S, 'grads': [g]}
+    system, objs = build_objs(case)
+    rq = Fraction(S['r'], 10 ** 6)
+    if how == 'split3':
+        parts = pp.split_gradient(objs[0], system=system)
+    else:
+        parts = pp.split_gradient_at(objs[0], float(k * rq), system=system)
+    return [obj_to_dict(o, rq) for o in parts]
+
+
+def gen_junction(rng, S, amax, kmax):
+    base = rng.choice([gen_trap, gen_trap, gen_ext])(rng, S, amax, kmax)
+    if rng.random() < 0.5:          # both signs, well away from zero
+        base = negate(base)
+    if base['k'] == 'ext' and rng.random() < 0.5:
+        # hand-built: a plateau at +-A in the middle so that a cut there meets at +-A
+        a = rng.choice([1, -1]) * rng.randint(max(1, amax // 4), amax)
+        step = max(1, int(S['ms'] * S['r'] * 1e-6))
+        ramp = max(1, -(-abs(a) // step)) + rng.randint(0, 3)
+        base = {'k': 'ext', 'delay': rng.choice([0, rng.randint(0, 6)]),
+                'tt': [0, ramp, ramp + rng.randint(2, 8), 2 * ramp + rng.randint(9, 12)], 'wf': [0, a, a, 0]}
+    c = abs_corners(base)
+    lo, hi = c[0][0], c[-1][0]
+    how = rng.choice(['hand', 'hand', 'impl_at', 'impl_at', 'split3'])
+    pieces = None
+    if hi - lo >= 2:
+        k = rng.choice([rng.randint(lo + 1, hi - 1), rng.choice([t for t, _ in c[1:-1]] or [lo + 1])])
+        if how != 'hand' and (how != 'split3' or base['k'] == 'trap'):
+            try:
+                pieces = impl_pieces(copy.deepcopy(base), S, how, k)
+            except Exception:
+                pieces = None
+        if pieces is None:
+            pieces = list(hand_split(base, k))
+        # sometimes cut one piece again (three pieces, two junctions)
+        if rng.random() < 0.3:
+            j = rng.randrange(len(pieces))
+            cj = abs_corners(pieces[j])
+            if cj[-1][0] - cj[0][0] >= 2:
+                k2 = rng.randint(cj[0][0] + 1, cj[-1][0] - 1)
+                pieces[j:j + 1] = list(hand_split(pieces[j], k2))
+    else:
+        pieces = [base]
+    # an unrelated gradient on top (its corners fall inside the pieces' segments); never drop a piece: the sum
+    # of an incomplete set of pieces has a jump and is not a legal input
+    if rng.random() < 0.35 and len(pieces) <= 3:
+        pieces.append(rng.choice([gen_trap, gen_ext, gen_arb])(rng, S, amax // 3 + 1, kmax))
+    rng.shuffle(pieces)
+    return pieces
+
+
 def gen_case(rng, tier, i):
     r = rng.choice([10, 10, 20, 4])
     mg = rng.choice([1000000, 1500000, 2500000, rng.randint(400000, 3500000)])
@@ -128,7 +224,7 @@ def gen_case(rng, tier, i):
     S = {'mg': mg, 'ms': ms, 'r': r}
     kmax = rng.choice([6, 12, 30]) if tier == 'quick' else rng.choice([6, 12, 30, 80])
     stream = rng.choice(['trap_equal', 'traps', 'trap_ext', 'ext', 'with_arb', 'with_arb', 'cancel', 'override',
-                         'near_limit', 'mixed'])
+                         'near_limit', 'mixed', 'junction', 'junction'])
     n = rng.choice([1, 2, 2, 3, 3, 4])
     amax = int(mg * rng.choice([0.2, 0.3, 0.45, 0.7]))
     grads = []
@@ -165,6 +261,9 @@ def gen_case(rng, tier, i):
         else:
             grads = [gen_arb(rng, S, amax, kmax)] + [rng.choice([gen_trap, gen_ext, gen_arb])(rng, S, amax, kmax)
                                                      for _ in range(n - 1)]
+    if stream == 'junction':
+        grads = gen_junction(rng, S, amax, kmax)
+        return {'stream': stream, 'sys': S, 'ov': {'mg': 0, 'ms': 0}, 'grads': grads}
     # shared corner times: sometimes align delays
     if len(grads) > 1 and rng.random() < 0.3:
         d = grads[0]['delay']
@@ -403,9 +502,25 @@ def oracle(ctx, case, system, objs, res, err, unchanged):
     cin = [corners(o) for o in objs]
     scale = max([Fraction(1)] + [abs(v) for c in cin for _, v in c])
     tol = scale * Fraction(1, 10 ** 9) + Fraction(1, 10 ** 12) + Fraction(2, 10 ** 9)
+    # A piece that starts away from zero after time 0 continues a piece that ends there (the two halves of a
+    # split gradient): at the junction time itself the value belongs to the piece that ENDS there, the starting
+    # piece counts on (start, end] only.  (The sums generated here are continuous at every junction.)
+    EPSQ = Fraction(1, 10 ** 9)
+    open_start = [path != 'raster' and len(c) > 0 and abs(c[0][1]) > EPSQ and c[0][0] > EPSQ for c in cin]
+    info['junction'] = any(open_start)
+    if any(open_start):
+        # the code realises the open start by moving that corner by eps = 1e-9 s: values at corner times of OTHER
+        # inputs inside the first segment move by at most eps * slope
+        msl = max([abs(w - v) / (b - a) for c in cin for (a, v), (b, w) in zip(c, c[1:]) if b > a] + [Fraction(0)])
+        tol += 2 * EPSQ * msl
 
     def ssum(t):
-        return sum((pw_eval(c, t) for c in cin), Fraction(0))
+        tot = Fraction(0)
+        for c, op in zip(cin, open_start):
+            if op and abs(t - c[0][0]) < TNOISE:
+                continue
+            tot += pw_eval(c, t)
+        return tot
 
     # ---- what the sum is, and whether it is within the limits
     if path == 'raster':
@@ -630,6 +745,9 @@ def run(ctx):
         ctx.count('kinds.' + ''.join(sorted(set(g['k'][0] for g in c['grads']))))
         if info.get('band'):
             ctx.count('limit.guard_band')
+        if info.get('junction'):
+            ctx.count('junction.nonzero_start_after_0')
+            ctx.count('junction.sign.' + ('neg' if any(g['k'] == 'ext' and g['delay'] > 0 and g['wf'][0] < 0 for g in c['grads']) else 'pos'))
         if c['ov']['mg'] or c['ov']['ms']:
             ctx.count('override.used')
         if i % 300 == 9:
